@@ -665,9 +665,8 @@ class List(list, base.Symbolic, pg_typing.CustomTyping):
     if n <= 0:
       self.clear()
     else:
-      items = list(self.sym_values())
-      for _ in range(n - 1):
-        self.extend(items)
+      # One extend, so the change is notified once.
+      self.extend(list(self.sym_values()) * (n - 1))
     return self
 
   def __rmul__(self, n: int) -> 'List':
